@@ -270,7 +270,10 @@ pub fn exec(case: &Value) -> Value {
         // win 0: the planes are the targets; 1: the targets are windows (MutSlice2, row pitch > width) of
         // larger parent planes, re-borrowed for every call; 2: windows of windows
         let win = (h.get(0).and_then(|c| c.get("win")).and_then(|v| v.as_i64())).unwrap_or(0);
-        let (pl, pt, pr, pb) = if win == 0 { (0u32, 0u32, 0u32, 0u32) } else { (1, 1, 2, 1) };
+        // 3: the planes are the far corner (from column 2000, row 1000) of much larger buffers handed over whole,
+        //    the viewport being shifted there: screen coordinates in the thousands
+        let (pl, pt, pr, pb) = if win == 0 { (0u32, 0u32, 0u32, 0u32) } else if win == 3 { (2000, 1000, 2, 2) } else { (1, 1, 2, 1) };
+        let to_screen = if win == 3 { viewport(pt2(vpn(0) + pl, vpn(1) + pt)..pt2(vpn(2) + pl, vpn(3) + pt)) } else { to_screen };
         let (pw, ph) = (bw + pl + pr, bh + pt + pb);
         let mut cpar = Buf2::new_from((pw, ph), std::iter::repeat(C0));
         let mut zpar = Buf2::new_from((pw, ph), std::iter::repeat(0.0f32));
@@ -326,8 +329,8 @@ pub fn exec(case: &Value) -> Value {
                 };
             }
             let okcall = match (win, kind == "fb") {
-                (0, true) => go!(&mut Framebuf { color_buf: &mut cpar, depth_buf: &mut zpar }),
-                (0, false) => go!(&mut cpar),
+                (0, true) | (3, true) => go!(&mut Framebuf { color_buf: &mut cpar, depth_buf: &mut zpar }),
+                (0, false) | (3, false) => go!(&mut cpar),
                 (1, fbk) => {
                     let mut cw = cpar.slice_mut((pl..pl + bw, pt..pt + bh));
                     let zw = zpar.slice_mut((pl..pl + bw, pt..pt + bh));
@@ -455,7 +458,8 @@ pub fn gen(args: &Args, out: &mut dyn Write) {
     let (do06, do07) = (mode != "c07", mode != "c06");
     let mut rng = Rng::new(args.seed ^ 0x7A96);
     for i in 0..n {
-        let (bw, bh) = (rng.range(6, 14), rng.range(5, 10));
+        let tinyfar = i % 10 == 3;
+        let (bw, bh) = if tinyfar { (16, 16) } else { (rng.range(6, 14), rng.range(5, 10)) };
         let mut vp = if rng.chance(1, 2) {
             [0, 0, bw, bh]
         } else {
@@ -472,19 +476,31 @@ pub fn gen(args: &Args, out: &mut dyn Write) {
             }
             _ => {}
         }
+        if tinyfar {
+            vp = [0, 0, 16, 16];
+        }
         let painter = i % 5 == 4;
         // "gap" scenes: two near pillars left and right, a far wall behind both that shows through the
         // gap between them - spans whose two ends are hidden while their middle is visible
         let gap = i % 5 == 2;
-        let nt = if painter || gap { 3 } else { rng.range(2, 4) as usize };
+        let nt = if painter || gap { 3 } else if tinyfar { 4 } else { rng.range(2, 4) as usize };
         let pbands: Vec<(i64, i64)> = match rng.below(3) {
             0 => vec![(4, 4), (5, 5), (6, 6)],
             1 => vec![(4, 5), (6, 6), (8, 9)],
             _ => vec![(4, 5), (7, 8), (10, 11)],
         };
+        // every tenth scene: triangles a quarter of a pixel across around pixel centres (16 x 16 pixels, w = 64:
+        // one lattice unit is an eighth of a pixel), drawn into the far corner of a large buffer
         let mut tris = vec![];
         for t in 0..nt {
-            let tri = if gap {
+            let tri = if tinyfar {
+                let (px, py) = (rng.range(1, 14), rng.range(1, 14));
+                let (cx, cy) = (8 * px + 4 - 64, 8 * py + 4 - 64);
+                let w = 64;
+                let mut v = [[cx - 1, cy - 1, 0, w], [cx + 1, cy - 1, 0, w], [cx, cy + 1, 0, w]];
+                if (t + i / 10) % 2 == 1 { v.swap(1, 2); }
+                v
+            } else if gap {
                 let j = |rng: &mut Rng| rng.range(-1, 1);
                 match t {
                     0 => { let w = 5; [[-w, -w, 2 * w - 12, w], [-1 + j(&mut rng), -w, 2 * w - 12, w], [-w, w + j(&mut rng), 2 * w - 12, w]] }
@@ -550,7 +566,7 @@ pub fn gen(args: &Args, out: &mut dyn Write) {
                     }
                     let need = 3 * *ord.iter().max().unwrap();
                     calls.push(json!({"ctx": ctx, "ord": ord, "nv": need.max(all_nv.min(need + 3 * rng.below(2) as usize)),
-                                      "via": if rng.chance(1, 4) { "batch" } else { "render" }, "win": hwin}));
+                                      "via": if rng.chance(1, 4) { "batch" } else { "render" }, "win": if tinyfar { 3 } else { hwin }}));
                 }
                 hists.push(json!(calls));
             }
@@ -582,7 +598,8 @@ pub fn gen(args: &Args, out: &mut dyn Write) {
                     "test": rng.below(4), "cw": rng.below(4).min(1), "dw": rng.below(4).min(1),
                     "disc": rng.below(3) / 2, "kind": kind});
                 calls.push(json!({"ctx": ctx, "ord": ord, "nv": need + rng.below(5) as usize,
-                                  "via": *rng.pick(&["render", "render", "render", "batch", "cam", "camm"]), "win": hk % 3}));
+                                  "via": if tinyfar { *rng.pick(&["render", "batch"]) } else { *rng.pick(&["render", "render", "render", "batch", "cam", "camm"]) },
+                                  "win": if tinyfar { 3 } else { hk % 3 }}));
             }
             hists.push(json!(calls));
         }
